@@ -1,7 +1,12 @@
 """C11 - writable-volume set and lookups reflect the cluster state (MasterView.tla, MasterTopoImpl.tla).
 
 Also the shared machinery of C12 (capacity accounting): both properties are judged on the same
-executions of harness/cmd/c11 by spec/MasterViewTrace.tla with Prop = "C11" / "C12"."""
+executions of harness/cmd/c11 by spec/MasterViewTrace.tla with Prop = "C11" / "C12".
+
+A share of the executions (reset line "via": "master") is run a second time against a REAL master server
+(weed/server: SendHeartbeat over in-memory streams, LookupVolume, Assign; harness/cluster/realmaster.go) and
+judged by the same trace specification. What that master told its KeepConnected clients is judged by
+spec/MasterBroadcastTrace.tla as an advisory extension (evidence: model_drift), never as a C11 verdict."""
 import json
 import os
 import random
@@ -15,6 +20,8 @@ VOLS4 = [{"id": 1, "rp": "000", "copies": 1, "col": "", "disk": "", "ttl": 0},
 ECS2 = [{"id": 7, "col": "", "disk": ""}, {"id": 8, "col": "c1", "disk": "ssd"}]
 DTS = ["", "ssd"]
 LIMIT = 1000
+MASTER_SHARE_QUICK = 0.4      # share of the witnesses / random histories that also run against a real master server
+MASTER_SHARE_THOROUGH = 0.3
 
 
 MVOLS = [{"id": 1, "rp": "001", "copies": 2, "col": "", "disk": "", "ttl": 0},
@@ -253,8 +260,29 @@ def write_script(path, execs):
                 f.write(json.dumps(op) + "\n")
 
 
+def via_master(execs):
+    return [(dict(reset, via="master"), ops) for reset, ops in execs]
+
+
+def master_only(trace, path):
+    """the executions of a recorded trace that ran against the real master server"""
+    n = 0
+    with open(path, "w") as f:
+        keep = False
+        for line in open(trace):
+            if '"ev":"reset"' in line:
+                keep = '"via":"master"' in line
+                n += keep
+            if keep:
+                f.write(line)
+    return n
+
+
+BCAST = dict(BNodes={"n1", "n2"}, BVols={1}, BEcs={7}, BShards={0, 1}, BRule="code", BMaxOps=5)
+
+
 def run_prop(ctx, prop):
-    ctx.sany("MasterView", "MasterViewTrace", "MasterTopoImpl")
+    ctx.sany("MasterView", "MasterViewTrace", "MasterTopoImpl", "MasterBroadcast", "MasterBroadcastModel", "MasterBroadcastTrace")
     rng = random.Random(ctx.seed * 7919 + (11 if prop == "C11" else 12))
     invs = (["InvC11", "InvWritable", "InvLocations"] if prop == "C11"
             else ["InvC12", "InvCounters", "InvTotals"])
@@ -275,6 +303,17 @@ def run_prop(ctx, prop):
             if len(hists) > cap:
                 hists = rng.sample(hists, cap)
             execs += [(reset_of(mc), h) for h in hists]
+    if prop == "C11" and not skip_mc:
+        # the broadcast extension at design level: with the message rule of the code every client's map follows
+        # the registry; without the "server still has the volume" filter it does not
+        bbase = "SPECIFICATION Spec\nINVARIANT InSync\nCHECK_DEADLOCK FALSE\n"
+        bc = dict(BCAST, BVols={1, 2}, BMaxOps=6) if ctx.thorough else BCAST
+        ctx.model_check(ctx.instance("MC_bcast", "MasterBroadcastModel", bbase, bc), workers=4, timeout=800,
+                        label="broadcast extension: clients' maps follow the registry (message rule of SendHeartbeat)")
+        if ctx.thorough:
+            ctx.model_check(ctx.instance("MCbad_bcast", "MasterBroadcastModel", bbase, dict(BCAST, BRule="nofilter")), workers=4,
+                            timeout=800, expect_violation="InSync", coverage=False,
+                            label="broadcast extension without the HasVolumesById filter: must break")
     if ctx.thorough and not skip_mc:
         # the model is sensitive to the defects that were repaired in /repo (S14, S15) and to the open finding
         if prop == "C12":
@@ -301,10 +340,18 @@ def run_prop(ctx, prop):
         hists = ctx.generate(g3, simulate=1000 if ctx.thorough else 150, depth=sc["MaxOps"] + sc["MaxSrv"] + 1)
         execs += [(reset_of(sc), h) for h in hists]
         ctx.notes["model_histories"] = len(execs)
+        share = MASTER_SHARE_THOROUGH if ctx.thorough else MASTER_SHARE_QUICK
+        mexecs = rng.sample(execs, int(len(execs) * share))
         # 4. G4: long random histories over 2-4 servers in 2 data centers / 3 racks, 4 volumes on 2 disk types
-        execs += random_histories(rng, 800 if ctx.thorough else 150, 20 if ctx.thorough else 14)
+        rnd = random_histories(rng, 800 if ctx.thorough else 150, 20 if ctx.thorough else 14)
         # 5. G4b: directed histories around read-only + size limit at registration
-        execs += scenario_histories(rng, 400 if ctx.thorough else 40)
+        scen = scenario_histories(rng, 400 if ctx.thorough else 40)
+        execs += rnd + scen
+        # 6. a share of the witnesses and of the random histories and every directed history once more,
+        #    against a real master server
+        mexecs += rnd[:int(len(rnd) * share)] + scen
+        execs += via_master(mexecs)
+        ctx.notes["master_mode_executions"] = len(mexecs)
         script = os.path.join(ctx.out, "script.ndjson")
         write_script(script, execs)
     else:
@@ -339,7 +386,19 @@ def run_prop(ctx, prop):
 
     ctx.judge("MasterViewTrace", trace, "trace_base.cfg", {"Prop": prop}, nontrivial=nontrivial, mutate=mutate,
               chunk_events=2500 if not ctx.thorough else 6000, jobs=4 if not ctx.thorough else 8)
-    ctx.rule = ("executions = heartbeat histories fed to a real topology.Topology through the calls of SendHeartbeat: "
+    if prop == "C11":
+        # advisory: what the real master told its KeepConnected clients (spec growth, never a C11 verdict)
+        mtrace = os.path.join(ctx.out, "trace-master.ndjson")
+        if master_only(trace, mtrace):
+            bad = ctx.judge_advisory("MasterBroadcastTrace", mtrace, "trace_base.cfg", {}, label="bcast")
+            ctx.notes["broadcast_advisory"] = {
+                "statement": "a KeepConnected client that applies the master's messages in order knows, after every step, "
+                             "exactly the servers the master answers lookups with (ec volumes: the servers listed with shards)",
+                "executions_not_explained": bad}
+    ctx.rule = ("executions = heartbeat histories fed to a real topology.Topology through the calls of SendHeartbeat, and a share of "
+                "them (30-40 % of the witnesses and random histories, every directed history) once more to a real weed/server "
+                "MasterServer (in-memory SendHeartbeat streams, lookups by LookupVolume by id and by file id + collection, picks "
+                "also by Assign): "
                 "G2 one shortest history per distinct state of the model-checked layer-B instances (sampled to a cap), "
                 "G3 random behaviours of a larger layer-B instance (2 servers, 2 volumes, 2 ec volumes, all flags; stale / "
                 "reordered deltas, reconnects) + seeded random server walks (2-4 servers, 2 data centers, 3 racks, 4 volumes "
@@ -351,7 +410,9 @@ def run_prop(ctx, prop):
                 "level, Lookup of every id, the writable lists and PickForWrite per volume class; non-trivial = contains an "
                 "incremental message or a disconnect and >= 3 events; distinct by hash of the recorded execution")
     ctx.exhaustive = False
-    ctx.assumptions += ["heartbeats are processed one at a time (interleavings of concurrently running handlers are not explored); two streams of one server overlap only in the re-dial scenario",
+    ctx.assumptions += ["real master: public constructor, raft replaced by a stand-in that is always leader, no listener; its periodic jobs "
+                        "(size check every 5-10 s) do not run within an execution (milliseconds); the size check is the driver's `collect` step",
+                        "heartbeats are processed one at a time (interleavings of concurrently running handlers are not explored); two streams of one server overlap only in the re-dial scenario",
                         "volume ids of normal and ec volumes are disjoint; static volume attributes (collection, replication, ttl, disk type) never change",
                         "free slots = max + remote - volumes - (ecShards/10 + 1 if ecShards > 0), the definition in DiskUsageCounts.FreeSpace",
                         "the size condition of C11 is required right after the master's size check (collect), which is when the code enforces it"]
